@@ -92,6 +92,11 @@ def run(files, entry="main.py", argv=()):
     return pickle.loads(b"".join(chunks))
 
 
+import warnings as _w
+
+_w.simplefilter("ignore", SyntaxWarning)  # generated programs like "1if x" only matter if they fail
+
+
 def compiles(files):
     """first syntax error among the python files, or None"""
     for p, src in sorted(files.items()):
